@@ -214,6 +214,11 @@ func ProtoMonitor(sc *Scenario, w *World, x *Exec) []Violation {
 						}
 					case *tunnelpb.ServerToClient_MoreResponseData:
 						st.respData = true
+						if st.closes > 0 && st.respLeft > 0 {
+							// the continuation frames of a message are contiguous within their stream:
+							// the stream's close frame was emitted in the middle of this message
+							bad("message-contiguous", "s2c:close-inside-message", fmt.Sprintf("%s: id %d: %s continues a message across the stream's close frame (%d bytes were outstanding)", ms.Name, m.StreamId, FrameString(f), st.respLeft))
+						}
 						if st.respLeft <= 0 {
 							bad("chunks-sum-to-size", "s2c:continuation-without-envelope", fmt.Sprintf("%s: %s", ms.Name, FrameString(f)))
 						}
